@@ -774,12 +774,9 @@ class file_archive(archive):
                 open(_filename, 'wb').write(_b('memo = %s' % repr(memo)))
         except OSError:
             "failed to populate file for %s" % str(filename)
-        # move the results to the proper place
+        # move the results to the proper place (atomically: never leave no file)
         try:
-            os.remove(filename)
-        except: pass
-        try:
-            os.renames(_filename, filename)
+            os.replace(_filename, filename)
         except OSError:
             "error in populating %s" % str(filename)
         return
